@@ -69,6 +69,10 @@ func (s *Sim) discover(t *txn) bool {
 // batchCb tracks invocations of a batch callback.
 type batchCb struct {
 	seen map[ecs.Entity]int
+	// reject, if set, is run from the first callback: a structural operation through the very API
+	// object the running batch was called on. It must panic on the locked world, without effect on
+	// the world and on the running batch (C07).
+	reject func(e ecs.Entity)
 }
 
 func (s *Sim) checkBatchPtrs(t *txn, name string, e ecs.Entity, ts []int, ptrs []unsafe.Pointer) {
@@ -336,6 +340,9 @@ func (s *Sim) opBatch(op *Op) {
 			if !s.W.IsLocked() {
 				s.violate("C09", "cb.lock", name+"/batchfn", false, "world not locked inside %s callback", name)
 			}
+			if len(cb.seen) == 1 && cb.seen[e] == 1 && cb.reject != nil && !s.fatal {
+				cb.reject(e)
+			}
 			// a query run from inside the callback (about the only thing a callback may do on the
 			// locked world) yields alive entities only, each once; the entity of the callback is one of them
 			if n := len(cb.seen); (n == 2 || n == 5) && s.lockDepth < 62 {
@@ -431,6 +438,37 @@ func (s *Sim) opBatch(op *Op) {
 		var fn func(ecs.Entity)
 		if op.Fn != FnNil {
 			fn = entFn("SetRelationsBatch")
+			// the same mapper, from inside its own batch callback, with other targets
+			tg2 := map[int]int{}
+			for k, c := range cs {
+				if _, ok := tg[c]; !ok {
+					continue
+				}
+				for j := 0; j < 4; j++ {
+					if x := s.M.PickLive(op.F + op.Ad + len(sel) + k + j); x != nil && x.Label != tg[c] {
+						tg2[c] = x.Label
+						break
+					}
+				}
+			}
+			if len(tg2) == len(tg) && len(tg) > 0 && (op.F+len(sel))%2 == 0 {
+				rels2 := append([]ecs.Relation{}, s.relations(tuple, tg2, cs, op.RS)...)
+				cb.reject = func(e ecs.Entity) {
+					s.C.Checks["lock.blocks"]++
+					s.C.Faults["rejected_call_on_the_running_mapper"]++
+					if s.rejTargets == nil {
+						s.rejTargets = map[ecs.Entity]int{}
+					}
+					for _, l := range tg {
+						if l != 0 {
+							s.rejTargets[s.handleOf(l)] = s.M.Epoch
+						}
+					}
+					if p, _ := s.call(func() { m.SetRelations(e, rels2) }); !p {
+						s.violate("C07", "lock.blocks", "callback_same_mapper/SetRelationsBatch", true, "SetRelations through the mapper of the running SetRelationsBatch succeeded inside its callback although the world must be locked")
+					}
+				}
+			}
 		}
 		b := f.Batch(qrels)
 		s.count(mapperName(tuple, idx) + ".SetRelationsBatch")
